@@ -120,7 +120,27 @@ def aipw_targets():
     return out
 
 
+def tmle_targets():
+    """clever covariates and update lines of TMLE.fit; tmle_unit_unbound"""
+    TM = os.path.join(REPO, 'zepid/causal/doublyrobust/TMLE.py')
+    tree = ast.parse(open(TM).read())
+    fn = find_function(tree, 'TMLE.fit')
+    out = []
+    for tgt in ('H1W', 'H0W', 'Qstar1', 'Qstar0'):
+        hits = [s for s in ast.walk(fn) if isinstance(s, ast.Assign) and len(s.targets) == 1
+                and isinstance(s.targets[0], ast.Name) and s.targets[0].id == tgt
+                and 'tmle_unit_unbound' not in ast.unparse(s.value)]
+        if len(hits) != 1:
+            raise TranslateError('expected one defining assignment to %s in TMLE.fit, found %d' % (tgt, len(hits)))
+        tr = FnTranslator('tmle_' + tgt, [], self_attrs=True)
+        tr.returns = [('point', tr.expr(hits[0].value))]
+        out.append(Translated(tr))
+    out.append(translate_function(os.path.join(REPO, 'zepid/causal/doublyrobust/utils.py'), 'tmle_unit_unbound'))
+    return out
+
+
 GROUPS = {
+    'tmle': tmle_targets,
     'calc': calc_targets,
     'rdbounds': bounds_targets,
     'weights': weights_targets,
